@@ -176,3 +176,27 @@ Definition fit_chisq_ok (c : fitcase) : bool :=
 Definition fit_implicit (c : fitcase) : bool := implicit_ok (fit_icase c).
 Definition fit_values_ok (c : fitcase) : bool :=
   all2 (fun o v => Qeq_bool (o_value o) v) (fc_uobs c) (firstn (fc_nv c) (fc_uvals c)).
+
+(* diagnostics: the largest ratio sup |form| / inf (sum |terms|) over all configurations, per visible equation (as a multiple of 2^-60) *)
+Definition form_ratio (cs : qrow) (xs : list Q) : Z :=
+  match form_bounds cs xs with
+  | None => (-1)%Z
+  | Some ts =>
+      let lo := Qsum (map fst ts) in let hi := Qsum (map snd ts) in
+      let sup_abs := Qmax (Qabs.Qabs lo) (Qabs.Qabs hi) in
+      let inf_terms := Qsum (map (fun t => if Qle_bool (fst t) 0 && Qle_bool 0 (snd t) then 0 else Qmin (Qabs.Qabs (fst t)) (Qabs.Qabs (snd t))) ts) in
+      if Qeq_bool inf_terms 0 then (if Qeq_bool sup_abs 0 then 0 else -2)%Z else
+      let r := sup_abs / inf_terms * inject_Z (2 ^ 60) in (Qnum r / Z.pos (Qden r))%Z
+  end.
+Definition implicit_worst (c : icase) : list Z :=
+  let nu := ic_nu c in let nd := List.length (ic_dvals c) in
+  let J := jacobian (ic_eqs c) (nu + nd) (ic_env c) in
+  let J' := eliminate (seq (ic_nv c) (nu - ic_nv c)) J in
+  map (fun i => let row := nth i J' [] in
+                let cs := map i2q (firstn (ic_nv c) row ++ skipn nu row) in
+                let u_obs := ic_uobs c in let d_obs := ic_dobs c in
+                fold_right Z.max 0%Z (flat_map (fun n =>
+                  let ws := map (fun o => spec_weight d_obs o n) d_obs in
+                  map (fun cf => form_ratio cs (map (fun o => fluct0 o n cf) u_obs ++ map (fun ow => Qred (snd ow * fluct0 (fst ow) n cf)) (combine d_obs ws)))
+                      (union_cfgs (u_obs ++ d_obs) n)) (sample_names (u_obs ++ d_obs))))
+      (seq 0 (ic_nv c)).
